@@ -12,6 +12,7 @@ __all__ = ['split', 'join', 'listify', 'inner_quote', 'inner_quote_info',
            'join_lines', 'local_env', 'global_env']
 
 _bad_chars = re.compile(r'[^\w@%+=:,./-]')
+_assignment_word = re.compile(r'[A-Za-z_]\w*=')
 
 
 def split(s, type=list, escapes=False):
@@ -97,9 +98,24 @@ def _escape_word(word):
     return shell_literal(word)
 
 
+def _escape_command_word(line):
+    # An unquoted first word of the form `NAME=...` is an assignment to the
+    # shell, not a command name; one starting with `-` or `+` is taken for an
+    # option by `sh -c`. Make sure such words are quoted.
+    word = next(iter(line), None)
+    if ( isinstance(word, str) and not _bad_chars.search(word) and
+         (_assignment_word.match(word) or word[:1] in ('-', '+')) ):
+        rest = list(line)[1:]
+        return type(line)([shell_literal(wrap_quotes(word))] + rest)
+    return line
+
+
 def escape_line(line, listify=False):
     if iterutils.isiterable(line):
-        return iterutils.listify(line) if listify else line
+        line = iterutils.listify(line) if listify else line
+        if isinstance(line, list):
+            line = _escape_command_word(line)
+        return line
 
     line = safe_str(line)
     if isinstance(line, str):
